@@ -52,6 +52,11 @@ CLAIMED = {
    note="Trusted: Lean kernel; Bound(cfg) formula of the harness; anti-starvation timeouts enabled. Partial: composed latency bound (measured, reported as max latency / Bound).",
    technique="Lean 4 proof (arbiter and timer lemmas) + whole-core co-simulation + latency monitor",
    design="§6 C05"),
+ "C12": dict(
+   text="Cycle-accurate Lean models of LiteDRAMDMAReader/Writer and of LiteX's stream.SyncFIFO in its four shapes (wire, Buffer, SyncFIFO, SyncFIFOBuffered), co-simulated against the real modules for native and AXI ports, depths 1..16, buffered or not, with a memory side that pulses read data without waiting for ready; specification monitors (Spec/DmaSpec: one word per accepted address in order with last on the matching word, no overrun; each (address,data) pair written once and paired) evaluated on the implementation; theorems on the reservation accounting.",
+   note="Trusted: Lean kernel; Spec/DmaSpec.lean; memory returns data in command order. CSR front-end not modelled.",
+   technique="Lean 4 proof (reservation invariant) + cycle-exact co-simulation + Lean stream monitors",
+   design="§6 C12"),
  "C06": dict(
    text="Lean theorems over the parametric address-map model for every geometry satisfying WF: left and right inverse (injective, onto), A10 never a column bit, row part, consecutive walk; model tied to the real crossbar routing and _AddressSlicer by exhaustive (small geometries) and dense evaluation in Migen's simulator.",
    note="Trusted: Lean kernel, Spec (Loc/addrOf/encodeCol in Props/C06.lean), correspondence harness; the steerer's rank/bank split is replicated in the harness and re-observed end-to-end by C01/C02 whole-core runs.",
